@@ -14,7 +14,7 @@ CHECKS = {
              "graph_utils functions are executed on each from every vertex and every recorded result is compared by TLC with the "
              "textbook definitions written in HGraph.tla (closure, simple paths, maximal paths, sources). Exhaustive within the bound, "
              "which is the bound the property names.",
-        design_ref="DESIGN.md §5 C19",
+        design_ref="DESIGN.md §4 C19",
         note="Trusted: TLC, the JSON serialisation of results (sorted lists of ints). Graphs are simple digraphs whose vertices are all keys.",
     ),
     "C16": dict(
@@ -25,7 +25,7 @@ CHECKS = {
              "long histories over the full alphabet, checking the design invariants; each history is executed on a real Context with real AST "
              "declarations and TLC replays it as a behaviour of HContext, comparing get_decl / current / enclosing / global / reverse queries "
              "after the steps. History-quantified, which no unit test reaches.",
-        design_ref="DESIGN.md §5 C16",
+        design_ref="DESIGN.md §4 C16",
         note="Trusted: TLC, the dumb serialiser of query results. Assumes a name is not shared between function/variable/class in one namespace.",
     ),
     "C06": dict(
@@ -36,7 +36,7 @@ CHECKS = {
              "4 languages: the implementation's full subtype matrix is compared with the declarative relation - soundness everywhere, exactness, "
              "reflexivity, transitivity on the fragment, bottom below all; the spec's own relation is checked transitive on every table. "
              "Exhaustive within the family in the thorough tier; quick samples 96 table/language cases.",
-        design_ref="DESIGN.md §5 C06",
+        design_ref="DESIGN.md §4 C06",
         note="Trusted: TLC, term<->object conversion (round-trip checked). Known finding F11 (supertypes by textual substitution) is keyed by the "
              "spec predicate TextualDiffers; everything outside that shape is reported.",
     ),
@@ -48,7 +48,7 @@ CHECKS = {
              "substitute / to_variance_free / to_type_variable_free / is_subtype over two three-level generic hierarchies, plus random longer "
              "ones; after each step TLC checks result = textual substitution, supertypes = declared supertypes substituted transitively, "
              "substitution laws, and that no definition, argument or earlier result changed.",
-        design_ref="DESIGN.md §5 C07",
+        design_ref="DESIGN.md §4 C07",
         note="Trusted: TLC, structural snapshot function. Supertypes compared for variable-free instantiations only.",
     ),
     "C09": dict(
@@ -58,7 +58,7 @@ CHECKS = {
         text="For tables of the HTypesGen family and query types from their universes, both searches are run over every outcome of their "
              "random choices (depth-first over the choice tree up to a leaf budget, sampled beyond) in all (include_self, concrete_only) "
              "settings; TLC judges every distinct returned type: usable, subtype of the query / unrelated to it, self included exactly on request.",
-        design_ref="DESIGN.md §5 C09",
+        design_ref="DESIGN.md §4 C09",
         note="Trusted: TLC, term conversion, the choice oracle. Known findings keyed by spec shape predicates (InOverProjection, "
              "DependentParam, TextualSupertypes); other shapes are reported.",
     ),
@@ -68,7 +68,7 @@ CHECKS = {
                   "and patterns; every non-empty result of the real unify_types validated by TLC",
         text="Every (target, pattern) pair of universe x 26 patterns (repeated, bounded, projected, nested variables) x both modes per table; "
              "each non-empty assignment is substituted back by TLC and compared with the target or one of its supertypes, bounds checked.",
-        design_ref="DESIGN.md §5 C10",
+        design_ref="DESIGN.md §4 C10",
         note="Trusted: TLC, term conversion. One-directional (only non-empty results are constrained), as the property states.",
     ),
     "C08": dict(
@@ -79,7 +79,7 @@ CHECKS = {
         text="38 400 cases (declarations with 1-3 parameters incl. chains T3:T2:T1 and Foo<T1> bounds x variances x all partial "
              "pre-assignments from a 7-term pool x 5 variance-choice settings x 4 switch settings x class/function) in the thorough tier, 3 000 "
              "sampled in quick; each executed over every outcome of the helper's random choices up to a leaf budget.",
-        design_ref="DESIGN.md §5 C08",
+        design_ref="DESIGN.md §4 C08",
         note="Trusted: TLC, term conversion, choice oracle. When a request targets a parameter tied to another by a bound, only the clauses that do "
              "not depend on the request are judged (the statement leaves the rewriting of the other assignments open).",
     ),
@@ -90,7 +90,7 @@ CHECKS = {
                   "classification; real javac 17 batches with errors known by construction in the thorough tier",
         text="All streams of <=3 (thorough: <=4) chunks over 3 files and 5 message kinds plus random streams up to length 20, x 4 compilers; "
              "attribution, message order per file, filter handling and crash classification compared with the spec's ground truth.",
-        design_ref="DESIGN.md §5 C14",
+        design_ref="DESIGN.md §4 C14",
         note="Trusted: TLC, the renderer (kotlinc/groovyc/scalac formats from documentation; javac cross-checked with the real compiler), "
              "token-based message identification.",
     ),
@@ -102,7 +102,7 @@ CHECKS = {
         text="Design: invariants Totals / NoLeftovers / SavedOnlyFaults and liveness over every outcome x verdict x crash combination and every "
              "interleaving of asynchronous checks. Code: exhaustive 1-2 program sessions plus random 4-7 program sessions, sequential and "
              "fork-pool mode, with the real gen_program / check_oracle / update_stats / save_stats / run / run_parallel; every event checked.",
-        design_ref="DESIGN.md §5 C15",
+        design_ref="DESIGN.md §4 C15",
         note="Trusted: TLC, the stand-in compiler (javac-format output, parsed by the real analysis), scripted ProgramProcessor. "
              "Event order in pool mode is the order of atomic appends to one log.",
     ),
@@ -113,7 +113,7 @@ CHECKS = {
         text="Every history of <=2 (thorough: <=3) calls over {reused, other-language, fresh translator} x {p, erased p, overwritten p, q} plus "
              "random longer histories, for base programs of all four languages; the same key must always give the same text and the program's "
              "pickle snapshot must not change.",
-        design_ref="DESIGN.md §5 C11",
+        design_ref="DESIGN.md §4 C11",
         note="Trusted: TLC, pickle as the snapshot function, sha1 digests. Programs are sampled by seed; histories are exhaustive to the stated length.",
     ),
     "C13": dict(
@@ -123,7 +123,7 @@ CHECKS = {
         text="Save point (generated / erased once / erased twice / overwritten) x every sequence of <=2 (thorough: <=3) follow-up operations "
              "(translate own / other language, erase, overwrite, dump-and-load again) plus random longer ones, for programs of all four "
              "languages; each operation is applied to the original and to the loaded copy with the same random seed.",
-        design_ref="DESIGN.md §5 C13",
+        design_ref="DESIGN.md §4 C13",
         note="Trusted: TLC, sha1 digests of translated text. Programs sampled by seed. Needs hook H1 for address-independent set iteration.",
     ),
     "C17": dict(
@@ -134,7 +134,7 @@ CHECKS = {
         text="Exploration over seeds (8 per configuration quick, 60 thorough; 64 configurations); each generated program is checked "
              "completely: no projection / no contravariant projection / no bound / no function type parameter when the switch says so, no "
              "declaration-site variance for Java and Groovy, invariant function type parameters.",
-        design_ref="DESIGN.md §5 C17",
+        design_ref="DESIGN.md §4 C17",
         note="Trusted: TLC, the structural serialiser (pser.type_occurrences). Random programs: a violation that needs a rare shape may need the "
              "thorough tier.",
     ),
@@ -147,7 +147,7 @@ CHECKS = {
              "plus exploration: 256 programs (quick) / 5 120 (thorough) over 4 languages x max_depth 2..8 x switch settings, each through all "
              "pipeline stages; no exception in any stage, every generator edge in the model's edge table with its depth increment, leaf rule at "
              "every dispatch, depth restored on exit, nesting and call budget bounded.",
-        design_ref="DESIGN.md §5 C18",
+        design_ref="DESIGN.md §4 C18",
         note="Exploration cannot prove absence of exceptions. The edge table was read off the code and calibrated on a census; DeclSlack and the "
              "nesting slack are calibrated constants. Wall-clock timeouts of the transformations are outside the model.",
     ),
@@ -159,7 +159,7 @@ CHECKS = {
         text="192 (quick) / 1 200 (thorough) programs over 4 languages, default and sampled switch settings; clauses InitAssignable, "
              "ArgAssignable (constructor, super, call, reference call, default, array), ResultAssignable, AssignAssignable, "
              "TypeArgWithinBound (every type occurrence), AbstractImplemented, OverrideCompatible, NoFinalSuper.",
-        design_ref="DESIGN.md §5 C01, Appendix A",
+        design_ref="DESIGN.md §4 C01, Appendix A",
         note="Exploration over seeds. The reference semantics is independent of type_utils.py and was cross-examined against the "
              "implementation in C06; it cannot be calibrated against kotlinc/groovyc/scalac (not installed).",
     ),
@@ -170,7 +170,7 @@ CHECKS = {
         text="Same runs as C01 with separate clauses: Resolved (variable, field, function, reference callee, class, assignment target), "
              "ArityAdmitted (defaults, named arguments, varargs), AssignTargetNonFinal, InstantiatedConcrete, TypeVarsInScope, FreshInScope, "
              "NotReserved.",
-        design_ref="DESIGN.md §5 C05",
+        design_ref="DESIGN.md §4 C05",
         note="Exploration over seeds. Reserved-word sets are the languages' hard keywords, written in the spec (not read from src/resources).",
     ),
     "C03": dict(
@@ -180,7 +180,7 @@ CHECKS = {
         text="Frame: every field of every AST node identical except removed variable types, return types and inferable flags, for the first and a "
              "second application of the erasure. Inferability: the erased program has no typing/scoping violation it did not have before, with "
              "omitted variable types inferred from initializers and omitted constructor type arguments solved from expected type / arguments.",
-        design_ref="DESIGN.md §5 C03, Appendix B",
+        design_ref="DESIGN.md §4 C03, Appendix B",
         note="Exploration over seeds (80 / 800 programs). One open finding (NarrowedByErasure) keyed by a predicate computed in the walk.",
     ),
     "C04": dict(
@@ -191,7 +191,7 @@ CHECKS = {
         text="On generated and on erased programs, two random choices each: one site differs; replaced and replacing types unrelated in the "
              "declarative relation; message names both types and the node; the overwritten program is rejected by the reference checker; when "
              "nothing is injected the program and its translation are unchanged.",
-        design_ref="DESIGN.md §5 C04",
+        design_ref="DESIGN.md §4 C04",
         note="Exploration over seeds. 'A correct type checker must reject' is judged by the spec's reference semantics.",
     ),
     "C02": dict(
@@ -201,7 +201,7 @@ CHECKS = {
                   "validated by TLC (HJavacTrace)",
         text="72 (quick) / 960 (thorough) Java programs - generated and erased - compiled alone and in TLC-chosen batches and orders; no "
              "expected-pass file may be rejected and a file's verdict may not depend on its batch.",
-        design_ref="DESIGN.md §5 C02",
+        design_ref="DESIGN.md §4 C02",
         note="The property is by definition about javac's verdict; the spec contributes the oracle contract and the schedules, not a model of Java. "
              "javac 17 is trusted.",
     ),
@@ -212,7 +212,7 @@ CHECKS = {
         text="Generated, erased and overwritten programs x 4 languages: every class declared once; function headers (Kotlin, Scala); typed / "
              "untyped variable and field declarations (the presence bit of every erased or overwritten annotation); inferable constructor calls "
              "without explicit type arguments; every string literal; balanced brackets.",
-        design_ref="DESIGN.md §5 C12, Appendix C",
+        design_ref="DESIGN.md §4 C12, Appendix C",
         note="The textual patterns are trusted code. Not judged: function headers and typed-variable counts for Java/Groovy, explicit type arguments "
              "of generic method calls, modifiers, supertypes and bounds (the count-based inventory does not parse headers).",
     ),
